@@ -641,8 +641,29 @@ func (e *Engine) loopHeaderText(fn *ssa.Function, ordinal int) string {
 		}
 		e.loopTexts[fn] = texts
 	}
-	if ordinal-1 < len(texts) {
-		return texts[ordinal-1]
+	// loops made with goto have a header but no loop statement: they are skipped when headers are paired with
+	// the loop statements of the source (both in source order), and are addressed as "label NAME"
+	var hs []*ssa.BasicBlock
+	for h := range e.loopHeaders(fn) {
+		hs = append(hs, h)
+	}
+	ords := e.loopHeaders(fn)
+	sort.Slice(hs, func(i, j int) bool { return ords[hs[i]] < ords[hs[j]] })
+	k := 0
+	for _, h := range hs {
+		structured := strings.HasPrefix(h.Comment, "for.") || strings.HasPrefix(h.Comment, "range")
+		if ords[h] == ordinal {
+			if !structured {
+				return "label " + h.Comment
+			}
+			if k < len(texts) {
+				return texts[k]
+			}
+			return ""
+		}
+		if structured {
+			k++
+		}
 	}
 	return ""
 }
@@ -974,8 +995,13 @@ func (e *Engine) sitesFor(shape string, fn, root *ssa.Function) []*Site {
 func (e *Engine) instrShape(ins ssa.Instruction) []string {
 	var out []string
 	switch i := ins.(type) {
+	case *ssa.MapUpdate:
+		out = append(out, "mapwrite "+mapWhatOf(i.Map))
 	case ssa.CallInstruction:
 		c := i.Common()
+		if b, isB := c.Value.(*ssa.Builtin); isB && b.Name() == "delete" && len(c.Args) == 2 {
+			out = append(out, "mapdelete "+mapWhatOf(c.Args[0]))
+		}
 		if c.IsInvoke() {
 			out = append(out, "invoke "+e.ifaceKey(c.Value.Type(), c.Method.Name()))
 		} else if callee := c.StaticCallee(); callee != nil {
@@ -1011,6 +1037,21 @@ func (e *Engine) instrShape(ins ssa.Instruction) []string {
 		}
 	}
 	return out
+}
+
+// mapWhatOf names the field a map value was loaded from ("Statement.Clauses"), or "map".
+func mapWhatOf(m ssa.Value) string {
+	if u, ok := m.(*ssa.UnOp); ok {
+		if a, ok := u.X.(*ssa.FieldAddr); ok {
+			st := a.X.Type().Underlying().(*types.Pointer).Elem()
+			name := st.String()
+			if n, ok := st.(*types.Named); ok {
+				name = n.Obj().Name()
+			}
+			return name + "." + st.Underlying().(*types.Struct).Field(a.Field).Name()
+		}
+	}
+	return "map"
 }
 
 // siteInstrCount: number of instructions matched by the site in the functions it sweeps.
